@@ -16,7 +16,9 @@ RULE = (
     "product; the spelling of each affine form (C05 menu) and the method (auto, linprog, highs, highs-ds, "
     "highs-ipm) are assigned by fixed rotations in the quick tier and by the full product with the methods in "
     "the thorough tier.  transitions = solves on the real code (3 per state: first solve and two repeats on the "
-    "same Problem object) plus builder operations; an evaluation = one comparison of verdict / optimal value "
+    "same Problem object) plus builder operations; every third case is repeated on WARM objects (P + zz built and solved "
+    "first, then P + A0 - same column count, all columns shifted - from the same variable and vector objects); view-only "
+    "LPs over colliding views are part of the family; an evaluation = one comparison of verdict / optimal value "
     "with the independently assembled matrix form (exact polynomial coefficients) solved by the same linprog "
     "method.  Non-trivial = reference verdict decided (optimal / infeasible / unbounded); distinct by recipe."
 )
@@ -35,10 +37,31 @@ def verdict_of(sol):
     return {"optimal": "optimal", "infeasible": "infeasible", "unbounded": "unbounded"}.get(sol.status.value, sol.status.value)
 
 
-def check_problem(pr, method, rep=None, want=None):
+def check_warm_objects(pr, method, rep=None, want=None):
+    """Non-initial variable / vector objects: P + zz (zz sorts last) is built and solved first, then P + A0 (A0 sorts
+    first: same number of columns, every column of P shifted) is built from the SAME objects and must reach the optimum
+    and verdict of its own reference LP."""
+    from checks.c05 import shifted
+
+    D, T = shifted(pr, "zz"), shifted(pr, "A0")
+    attrs = tuple(pr[4]) + (("zz", (("lb", 0), ("ub", 1))), ("A0", (("lb", 0), ("ub", 1))))
+    D, T = D[:4] + (attrs,) + D[5:], T[:4] + (attrs,) + T[5:]
+    try:
+        PD, b, _ = PR.build_problem(D)
+        PD.solve(**({} if method == "auto" else {"method": method}))
+    except Exception:
+        return Fails(want)
+    fs = check_problem(T, method, rep, want, builder=b)
+    out = Fails()
+    for k, d in fs:
+        out.append((k if want is not None else k + ":warm-objects", d))
+    return out
+
+
+def check_problem(pr, method, rep=None, want=None, builder=None):
     fails = Fails(want)
     try:
-        P, b, built = PR.build_problem(pr)
+        P, b, built = PR.build_problem(pr, builder)
     except Exception as ex:
         fails.add("exception:build:" + type(ex).__name__, msg=str(ex)[:200])
         return fails
@@ -104,6 +127,11 @@ def explore(item, tier, seed):
             if kind not in seen:
                 seen.add(kind)
                 rep.violation(kind, {"labels": labs, "problem": pr, "method": method}, **d)
+        if not fs and idx % 3 == 0:
+            for kind, d in check_warm_objects(pr, method, rep):
+                if kind not in seen:
+                    seen.add(kind)
+                    rep.violation(kind, {"labels": labs, "problem": pr, "method": method, "warm": True}, **d)
         if rep.states % 401 == 1:
             rep.sample({"labels": labs, "method": method, "problem": pr})
     return rep
@@ -115,5 +143,8 @@ def culprit(v):
 
 def replay(art):
     case = art["violation"]["case"]
+    if case.get("warm"):
+        fs = check_warm_objects(detuple(case["problem"]), case["method"], None, want=art["culprit"]["kind"].replace(":warm-objects", ""))
+        return [{"kind": k + ":warm-objects", "detail": d} for k, d in fs]
     fs = check_problem(detuple(case["problem"]), case["method"], None, want=art["culprit"]["kind"])
     return [{"kind": k, "detail": d} for k, d in fs]
